@@ -294,6 +294,8 @@ def gen_single(seed, idx):
     # "flag wins" must also hold when the flag restates the documented default against a non-default file value
     if r.random() < 0.3 and _default(field) is not None and field not in base and field not in ("bitmap_resolution", "glyphmap_generator", "pngquant_flags", "transform"):
         value = _default(field)
+    if field == "glyphmap_generator":
+        base["keep_glyph_names"] = True  # without stored glyph names the generator's naming has no observable
     if field == "bitmap_resolution" and value == base.get("bitmap_resolution"):
         value = 48
     if base.get(field) == value:
